@@ -1,14 +1,424 @@
 /-
-  Driver.C10 — line protocol front end for property C10 (stub: not built yet).
+  Driver.C10 — line protocol for "calls that are expected to panic, followed by use of the
+  surviving object" on tensors and tensor views, and for the access log of the monitor
+  (history protocol P2; property C10).
+
+  State: the caller's tensor (none before the first accepted constructor call).
+
+  Constructors (the new tensor REPLACES the caller's object on success; otherwise the object the
+  caller already had survives).  The data are `base, base+1, …, base+n-1`:
+    @ from <shape> <n> <base>            Tensor::from        (case start: no tensor yet)
+    @ try_from <shape> <n> <base>        Tensor::try_from
+    from <shape> <n> <base>
+    try_from <shape> <n> <base>
+  Mutators (on the caller's object; after a panic the same object is used again):
+    reshape_mut <shape>
+    reshape_owned <shape>                (on a clone; the result replaces the object)
+    rename <names>                       via=rename|rename_owned
+    transpose_mut <names>                via=mut|alloc
+    reorder_mut <names>                  via=mut|alloc
+    map_mut <k> <p|->                    x ↦ x + k, the closure panics on its p-th call (0-based)
+                                         via=tensor|view|access
+    map_mut_with_index <k> <p|->         x at idx ↦ x + k + code(idx)   via=tensor|view|access
+    access_map_mut <names> <k> <p|->     TensorAccess::from(&mut t, names).map_mut_with_index
+    set <idx> <v>                        *get_reference_mut(idx)? = v    via=tensor|view|access
+  Every answer to these:  <ok|err|panic> <state> ## kind=<panic kind>
+    <state> ::= none | shape=<shape> len=<stored elements> data=<elements in iteration order>
+    (read=<flavour> on the line says which iterator the harness reads the elements with)
+  Observations:
+    state                                <state>
+    get <idx>                            some(v) | none        via=get_reference|access|panicking
+    log <flavour>                        flavour ∈ copy|ref|mut|owned, optionally wi=1
+    log_access <names> <flavour>         iteration through TensorAccess::from(&t, names)
+    log_view <adaptor> <flavour>         iteration through one view adaptor over the tensor:
+                                         range:<name>.<start>.<len> | mask:<name>.<start>.<len> |
+                                         reverse:<name> | index:<name>.<i>   (TensorRange/TensorMask::
+                                         from_all, clipped; TensorReverse::from; TensorIndex::from,
+                                         i.e. `select`, which must reject i >= length)
+        → accesses=<count> inbounds ## <leaf kind> <imm|mut> len=<stored> offs=<offsets>
+        (`rejected` if the access constructor panics)
+    log_rename <from> <set> <req> <flavour>   TensorRename::from(&mut t, from); set_names(set) under
+                                         catch_unwind; the surviving view indexed by req
+                                         (TensorAccess::from) and iterated
+        → set=<ok|panic> names=<names of the survivor> <as for log | access=rejected>
+  Stack / chain views over several mutable tensors (a case of its own):
+    @ zlog <chain|stack> <tuple|array> <along> <action> <shape>;<shape>;…
+        along: the chained dimension name | <pos>:<name> of the stacked dimension
+        action ∈ copy|ref|mut|owned|map_mut|map_mut_wi (iteration flavour or in-place map on the view)
+        → accesses=<n> inbounds ## tensor <imm|mut> lens=<stored per source> offs=<source>:<offset>,…
+  Matrix cases (each a case of its own):
+    @ mlog <rows> <cols> <order> <flavour>   order ∈ row_major|column_major|row:<r>|column:<c>|diagonal
+        → as for `log` (`rejected`: the iterator constructor panics)
+    @ mflat <rows> <cols> <n>            Matrix::from_flat_row_major((rows, cols), 1..=n)
+    @ mempty <rows> <cols>               Matrix::empty(7, (rows, cols))
+    @ mnew <R>x<C>                       Matrix with the elements 1..R*C; then lines
+    m <operation of Driver.C11>          insert_row(_with), insert_column(_with), remove_row,
+                                         remove_column, retain_mut … with valid or invalid arguments
+        → <ok|panic> <R>x<C> len=<stored> use=<items of a walk over the matrix left behind>
+    @ pnew <R>x<C>                       the same with an element type whose Clone panics on demand
+    p insert_row|insert_column <i> <v> <p|->   the call, `Clone::clone` panicking on its p-th call
+        → as for `m`
+        → ok <rows>x<cols> len=<stored> use=<items of a row-major walk> | panic
+
+  The part before `##` is what the property speaks about (outcome, and the object being
+  consistent and equal to the specification-level value; all accesses in bounds); the part after
+  `##` is code-shaped detail (panic kind, the exact offset sequence).
 -/
+import EasyMl.Model.Survivor
 import Driver.Parse
+import Driver.C09
+import Driver.C11
+import EasyMl.Model.View
 
 namespace Driver.C10
+open EasyMl EasyMl.Survivor Driver
 
-abbrev State := Unit
+abbrev T := Tensor String Nat
 
-def init : State := ()
+/-- the caller's tensor and (for the matrix lines) the caller's matrix -/
+structure St where
+  t : Option T
+  m : Option (Matrix Nat)
 
-def step (s : State) (_toks : List String) : State × String := (s, "unimplemented")
+abbrev State := St
+
+def init : State := ⟨none, none⟩
+
+/-! parsing -/
+
+def parsePanicAt (s : String) : Option (Option Nat) :=
+  if s = "-" then some none else s.toNat?.map some
+
+/-- the index code the with-index closures add: base-7 digits of the index tuple -/
+def code (idx : List Nat) : Nat := idx.foldl (fun a i => a * 7 + i + 1) 0
+
+def mkData (n base : Nat) : List Nat := (List.range n).map (· + base)
+
+def parseOp (toks : List String) : Option (Op String Nat) :=
+  match toks with
+  | "from" :: sh :: n :: b :: _ =>
+    match parseShape sh, n.toNat?, b.toNat? with
+    | some sh, some n, some b => some (.from sh (mkData n b))
+    | _, _, _ => none
+  | "try_from" :: sh :: n :: b :: _ =>
+    match parseShape sh, n.toNat?, b.toNat? with
+    | some sh, some n, some b => some (.tryFrom sh (mkData n b))
+    | _, _, _ => none
+  | "reshape_mut" :: sh :: _ => (parseShape sh).map .reshapeMut
+  | "reshape_owned" :: sh :: _ => (parseShape sh).map .reshapeOwned
+  | "rename" :: ns :: _ => some (.rename (parseNames ns))
+  | "transpose_mut" :: ns :: _ => some (.transposeMut (parseNames ns))
+  | "reorder_mut" :: ns :: _ => some (.reorderMut (parseNames ns))
+  | "map_mut" :: k :: p :: _ =>
+    match k.toNat?, parsePanicAt p with
+    | some k, some p => some (.mapMut (· + k) p)
+    | _, _ => none
+  | "map_mut_with_index" :: k :: p :: _ =>
+    match k.toNat?, parsePanicAt p with
+    | some k, some p => some (.mapMutWithIndex (fun idx x => x + k + code idx) p)
+    | _, _ => none
+  | "access_map_mut" :: ns :: k :: p :: _ =>
+    match k.toNat?, parsePanicAt p with
+    | some k, some p => some (.accessMapMut (parseNames ns) (fun idx x => x + k + code idx) p)
+    | _, _ => none
+  | "set" :: idx :: v :: _ =>
+    match parseNatList idx, v.toNat? with
+    | some idx, some v => some (.set idx v)
+    | _, _ => none
+  | _ => none
+
+/-! printing -/
+
+def showOut : Out → String
+  | .ok => "ok" | .err => "err" | .panic .hook => "panic(hook)" | .panic _ => "panic"
+
+def showKind : Out → String
+  | .panic k => s!" ## kind={k}"
+  | _ => ""
+
+/-- The elements in iteration order, read the way the library's iterators read them (C09 model:
+    shape odometer, then the C01 offset of each yielded index, then the stored value). -/
+def iterData (t : T) : Option (List Nat) :=
+  let src := tensorSource t
+  match tensorAccesses src (prod src.shape + 1) with
+  | .panic _ => none
+  | .ok accs => accs.mapM fun a => a.bind fun o => t.data[o]?
+
+/-- the state as the property sees it: shape, stored element count, row-major elements;
+    the iterator-level reading must agree (C09/C01 theorems) -/
+def showState : Option T → String
+  | none => "none"
+  | some t =>
+    let spec := s!"shape={showShape t.shape} len={t.data.length} data={showNats t.data}"
+    match iterData t with
+    | some d => if d = t.data then spec else s!"{spec} ## MODEL-SPEC-DISAGREE iter={showNats d}"
+    | none => s!"{spec} ## MODEL-SPEC-DISAGREE iter=UB"
+
+def showAccesses (kind : String) (mutable : Bool) (len : Nat) (r : Outcome (List Survivor.Access)) : String :=
+  match r with
+  | .panic k => s!"panic ## kind={k}"
+  | .ok accs =>
+    let inb := accs.all fun a => match a with
+      | some o => decide (o < len)
+      | none => false
+    let offs := accs.map fun a => match a with
+      | some o => toString o
+      | none => "UB"
+    let offsS := if offs.isEmpty then "-" else ",".intercalate offs
+    let m := if mutable then "mut" else "imm"
+    s!"accesses={accs.length} {if inb then "inbounds" else "OUT-OF-BOUNDS"} ## {kind} {m} len={len} offs={offsS}"
+
+def flavourMutable : String → Option Bool
+  | "copy" => some false | "ref" => some false | "mut" => some true | "owned" => some true
+  | _ => none
+
+def parseOrder (s : String) : Option MOrder :=
+  match s.splitOn ":" with
+  | ["row_major"] => some .rowMajor
+  | ["column_major"] => some .columnMajor
+  | ["diagonal"] => some .diagonal
+  | ["row", r] => r.toNat?.map .row
+  | ["column", c] => c.toNat?.map .column
+  | _ => none
+
+def orderTotal (rows columns : Nat) : MOrder → Nat
+  | .rowMajor | .columnMajor => rows * columns
+  | .row _ => columns
+  | .column _ => rows
+  | .diagonal => min rows columns
+
+/-- a constructed matrix: size, stored element count, and the number of items a row-major walk
+    over it yields (C09 model; each item is one unchecked leaf access) -/
+def showMatrix (m : Matrix Nat) : String :=
+  let used := match matrixAccesses (Iter.MSource.ofMatrix m.rows m.columns) .rowMajor
+      (m.data.length + 2) with
+    | .ok accs => toString accs.length
+    | .panic k => s!"panic({k})"
+  s!"ok {m.rows}x{m.columns} len={m.data.length} use={used}"
+
+def stepT (s : Option T) (toks : List String) : Option T × String :=
+  match toks with
+  | ["@", "mlog", r, c, order, fl] =>
+    match r.toNat?, c.toNat?, parseOrder order, flavourMutable fl with
+    | some r, some c, some order, some m =>
+      match Matrix.fromFlatRowMajor r c (List.range (r * c)) with
+      | none => (none, "rejected")
+      | some _ =>
+        let src := Iter.MSource.ofMatrix r c
+        match matrixAccesses src order (orderTotal r c order + 1) with
+        | .panic _ => (none, "rejected")
+        | res => (none, showAccesses "matrix" m (r * c) res)
+    | _, _, _, _ => (none, "bad-op")
+  | ["@", "mflat", r, c, n] =>
+    match r.toNat?, c.toNat?, n.toNat? with
+    | some r, some c, some n =>
+      match Matrix.fromFlatRowMajor r c (List.range' 1 n) with
+      | some m => (none, showMatrix m)
+      | none => (none, "panic ## kind=explicit")
+    | _, _, _ => (none, "bad-op")
+  | ["@", "mempty", r, c] =>
+    match r.toNat?, c.toNat? with
+    | some r, some c =>
+      match matrixEmpty r c 7 with
+      | some m => (none, showMatrix m)
+      | none => (none, "panic ## kind=explicit")
+    | _, _ => (none, "bad-op")
+  | "@" :: rest =>
+    -- case start with a constructor: there is no object yet
+    match parseOp rest with
+    | some (.from shape data) =>
+      match Tensor.fromOrPanic shape data with
+      | .ok t => (some t, s!"ok {showState (some t)}")
+      | .panic k => (none, s!"panic none ## kind={k}")
+    | some (.tryFrom shape data) =>
+      match Tensor.tryFrom shape data with
+      | some t => (some t, s!"ok {showState (some t)}")
+      | none => (none, "err none")
+    | _ => (none, "bad-op")
+  | ["state"] => (s, showState s)
+  | "state" :: _ => (s, showState s)
+  | "get" :: idx :: _ =>
+    match s, parseNatList idx with
+    | none, some _ => (s, "no-tensor")
+    | some t, some idx => (s, showOpt (t.get idx))
+    | _, none => (s, "bad-op")
+  | "log" :: fl :: _ =>
+    match s, flavourMutable fl with
+    | none, some _ => (s, "no-tensor")
+    | some t, some m =>
+      let src := tensorSource t
+      (s, showAccesses "tensor" m t.data.length (tensorAccesses src (prod src.shape + 1)))
+    | _, none => (s, "bad-op")
+  | "log_view" :: ad :: fl :: _ =>
+    match s, flavourMutable fl with
+    | none, some _ => (s, "no-tensor")
+    | some t, some m =>
+      -- the adaptor over the tensor as the C09 model builds it (clipping, rejection of empty views);
+      -- `index:` (TensorIndex / select) is modelled in Model/Survivor.lean
+      let names := t.shape.map (·.1)
+      let built : Option (List String × Iter.TSource Nat) :=
+        match ad.splitOn ":" with
+        | ["index", spec] =>
+          match spec.splitOn "." with
+          | [n, i] =>
+            match i.toNat? with
+            | some i =>
+              if names.contains n then
+                (indexSource (tensorSource t) (names.idxOf n) i).map fun src => (names, src)
+              else none
+            | none => none
+          | _ => none
+        | _ => Driver.C09.applyTensorAdaptor names (tensorSource t) ad
+      match built with
+      | none => (s, "rejected")
+      | some (_, src) =>
+        (s, showAccesses "tensor" m t.data.length (tensorAccesses src (prod src.shape + 1)))
+    | _, none => (s, "bad-op")
+  | "log_rename" :: fromS :: setS :: reqS :: fl :: _ =>
+    match s, flavourMutable fl with
+    | none, some _ => (s, "no-tensor")
+    | some t, some m =>
+      -- TensorRename::from(&mut t, from); set_names(set) under catch_unwind; then the surviving
+      -- view is indexed by `req` (TensorAccess::from) and iterated
+      let from_ := parseNames fromS
+      if from_.length ≠ t.shape.length || hasDuplicates from_ then (s, "rejected")
+      else
+        let r := renameSetNames from_ (parseNames setS)
+        let head := s!"set={if r.2 then "panic" else "ok"} names={if r.1.isEmpty then "-" else ",".intercalate r.1}"
+        let src := tensorSource t
+        match DimensionMappings.new (List.zip r.1 src.shape) (parseNames reqS) with
+        | none => (s, s!"{head} access=rejected")
+        | some mp =>
+          let asrc := src.access mp
+          (s, s!"{head} {showAccesses "tensor" m t.data.length (tensorAccesses asrc (prod asrc.shape + 1))}")
+    | _, none => (s, "bad-op")
+  | "log_access" :: ns :: fl :: _ =>
+    match s, flavourMutable fl with
+    | none, some _ => (s, "no-tensor")
+    | some t, some m =>
+      match accessSource t (parseNames ns) with
+      | none => (s, "rejected")
+      | some src => (s, showAccesses "tensor" m t.data.length (tensorAccesses src (prod src.shape + 1)))
+    | _, none => (s, "bad-op")
+  | _ =>
+    match parseOp toks with
+    | none => (s, "bad-op")
+    | some op =>
+      match s with
+      | none =>
+        -- no object yet: only a constructor can produce one
+        match op with
+        | .from shape data =>
+          match Tensor.fromOrPanic shape data with
+          | .ok t => (some t, s!"ok {showState (some t)}")
+          | .panic k => (none, s!"panic none ## kind={k}")
+        | .tryFrom shape data =>
+          match Tensor.tryFrom shape data with
+          | some t => (some t, s!"ok {showState (some t)}")
+          | none => (none, "err none")
+        | _ => (s, "no-tensor")
+      | some t =>
+        let res := exec t op
+        (some res.state, s!"{showOut res.out} {showState (some res.state)}{showKind res.out}")
+
+/-- the matrix left behind: size, stored elements, items of a walk over it -/
+def showMatrixState (m : Matrix Nat) : String :=
+  let used := match matrixAccesses (Iter.MSource.ofMatrix m.rows m.columns) .rowMajor
+      (m.data.length + 2) with
+    | .ok accs => toString accs.length
+    | .panic k => s!"panic({k})"
+  s!"{m.rows}x{m.columns} len={m.data.length} use={used}"
+
+def step (s : State) (toks : List String) : State × String :=
+  match toks with
+  | ["@", "mnew", sz] =>
+    match Driver.C11.parseSize sz with
+    | some (r, c) =>
+      match Matrix.fromFlatRowMajor r c (List.range' 1 (r * c)) with
+      | some m => (⟨none, some m⟩, s!"ok {showMatrixState m}")
+      | none => (⟨none, none⟩, "panic ## kind=explicit")
+    | none => (⟨none, none⟩, "bad-op")
+  | ["@", "zlog", kind, _form, along, action, shapesS] =>
+    -- TensorChain / TensorStack over several (mutable) tensors, through the C02 view model
+    let shapes := (shapesS.splitOn ";").mapM parseShape
+    let mutable? : Option Bool := match action with
+      | "copy" | "ref" => some false
+      | "mut" | "owned" | "map_mut" | "map_mut_wi" => some true
+      | _ => none
+    match shapes, mutable? with
+    | some shapes, some m =>
+      let leaves : Option (List (View String Nat)) := (List.zip (List.range shapes.length) shapes).mapM
+        fun (i, sh) => View.mkTensor i sh (List.range (elements sh))
+      let view : Option (View String Nat) := leaves.bind fun ls =>
+        if kind = "chain" then View.mkChain ls along
+        else
+          match along.splitOn ":" with
+          | [pos, name] => pos.toNat?.bind fun p => View.mkStack ls (p, name)
+          | _ => none
+      match view with
+      | none => (⟨none, none⟩, "rejected")
+      | some v =>
+        let shape := lens v.shape
+        let cell : List Nat → Option (Nat × Nat) := fun idx =>
+          match v.getUnchecked idx with
+          | .ok c => some c
+          | .panic _ => none
+        match Iter.collect (Iter.refNext Iter.shapeNext cell) (prod shape + 1) (Iter.ShapeIter.new shape) with
+        | .panic k => (⟨none, none⟩, s!"panic ## kind={k}")
+        | .ok (items, _) =>
+          let accs := items.filterMap id
+          let lensL := shapes.map elements
+          let inb := accs.all fun a => match a with
+            | some (i, o) => decide (o < lensL.getD i 0)
+            | none => false
+          let offs := accs.map fun a => match a with
+            | some (i, o) => s!"{i}:{o}"
+            | none => "UB"
+          (⟨none, none⟩, s!"accesses={accs.length} {if inb then "inbounds" else "OUT-OF-BOUNDS"} ## tensor {if m then "mut" else "imm"} lens={showNats lensL} offs={if offs.isEmpty then "-" else ",".intercalate offs}")
+    | _, _ => (⟨none, none⟩, "bad-op")
+  | ["@", "pnew", sz] =>
+    -- the same matrix with an element type whose `Clone` can be made to panic
+    match Driver.C11.parseSize sz with
+    | some (r, c) =>
+      match Matrix.fromFlatRowMajor r c (List.range' 1 (r * c)) with
+      | some m => (⟨none, some m⟩, s!"ok {showMatrixState m}")
+      | none => (⟨none, none⟩, "panic ## kind=explicit")
+    | none => (⟨none, none⟩, "bad-op")
+  | ["p", op, i, v, p] =>
+    match s.m, i.toNat?, v.toNat?, parsePanicAt p with
+    | none, some _, some _, some _ => (s, "no-matrix")
+    | some m, some i, some v, some p =>
+      let res? : Option (Matrix.Res Nat) :=
+        if op = "insert_row" then some (insertRowCloning m i v p)
+        else if op = "insert_column" then some (insertColumnCloning m i v p)
+        else none
+      match res? with
+      | none => (s, "bad-op")
+      | some res =>
+        let out := if res.panic.isSome then "panic" else "ok"
+        let kind := match res.panic with
+          | none => ""
+          | some k => s!" ## kind={k}"
+        ({ s with m := some res.state }, s!"{out} {showMatrixState res.state}{kind}")
+    | _, _, _, _ => (s, "bad-op")
+  | "m" :: rest =>
+    -- the C11 model of the resizing operations: the matrix left behind, also after a panic
+    match s.m, Driver.C11.parseOp rest with
+    | none, some _ => (s, "no-matrix")
+    | some m, some op =>
+      let res := Matrix.exec m op
+      let out := match res.panic with
+        | none => "ok"
+        | some .hook => "panic(hook)"
+        | some _ => "panic"
+      let kind := match res.panic with
+        | none => ""
+        | some k => s!" ## kind={k}"
+      ({ s with m := some res.state }, s!"{out} {showMatrixState res.state}{kind}")
+    | _, none => (s, "bad-op")
+  | _ =>
+    let r := stepT s.t toks
+    let m := if toks.head? = some "@" then none else s.m
+    (⟨r.1, m⟩, r.2)
 
 end Driver.C10
